@@ -215,19 +215,28 @@ def run_lines(exe, lines, chunks=None, timeout=1800, env=None):
     e.setdefault("ASAN_OPTIONS", "detect_leaks=0:abort_on_error=0:exitcode=99")
     e.setdefault("UBSAN_OPTIONS", "print_stacktrace=1")
     if env: e.update(env)
-    def run(part):
-        r = subprocess.run([exe], input=("\n".join(part) + "\n").encode(), stdout=subprocess.PIPE,
-                           stderr=subprocess.PIPE, timeout=timeout, env=e)
-        outl = r.stdout.decode("utf-8", "replace").split("\n")
+    def run(part, depth=0):
+        # a chunk normally finishes in well under a minute; a driver that loops (corrupted list) is a hang
+        tmo = min(timeout, 90 if depth else 240)
+        try:
+            r = subprocess.run([exe], input=("\n".join(part) + "\n").encode(), stdout=subprocess.PIPE,
+                               stderr=subprocess.PIPE, timeout=tmo, env=e)
+            rc, so, se = r.returncode, r.stdout, r.stderr
+        except subprocess.TimeoutExpired as ex:
+            rc, so, se = -999, (ex.stdout or b""), b"timeout: the driver did not return (endless loop?)"
+        outl = so.decode("utf-8", "replace").split("\n")
         if outl and outl[-1] == "": outl.pop()
-        if r.returncode != 0 or len(outl) != len(part):
+        elif rc == -999 and outl: outl.pop()       # partial last line
+        if rc != 0 or len(outl) != len(part):
             # crashed: mark the first unanswered request, then run the rest one request per process
-            k = len(outl)
+            k = min(len(outl), len(part) - 1)
             res = outl[:k]
-            err = r.stderr.decode("utf-8", "replace")
-            res.append("!crash rc=%d %s" % (r.returncode, " ".join(err.split())[:400]))
+            err = se.decode("utf-8", "replace")
+            res.append(("!crash hang " if rc == -999 else "!crash rc=%d " % rc) + " ".join(err.split())[:400])
             rest = part[k + 1:]
-            if rest: res += run(rest)
+            if rest:
+                if depth >= 30: res += ["!crash not-run (too many crashes in this chunk)"] * len(rest)
+                else: res += run(rest, depth + 1)
             return res
         return outl
     with ThreadPoolExecutor(len(parts)) as ex:
